@@ -289,7 +289,10 @@ class YAMLPath:
         # be parsed -- in both forms -- while the separator it was written
         # with still applies
         if not value == old_value:
-            _ = self.escaped
+            if not self.escaped:
+                # The path of no segments is written with no text lest its
+                # former separator be read as a key under the new one
+                self._original = ""
             self._stringified = YAMLPath._stringify_yamlpath(
                 self.unescaped, value)
             self._separator = value
